@@ -55,6 +55,31 @@ fn verbose_ctrl_response_u8() -> DltMessage {
 
 fn main() {
     let which = std::env::args().nth(1).unwrap_or_default();
+    if which == "m6" {
+        // C04: seek-within-buffer below the start of the valid (compacted) window hands out stale bytes
+        use std::io::{BufRead, Cursor, Read, Seek, SeekFrom};
+        use adlt::utils::LowMarkBufReader;
+        let src: Vec<u8> = (0..20000usize).map(|i| ((i * 7 + i / 256) % 251) as u8).collect();
+        let mut r = LowMarkBufReader::new(Cursor::new(src.clone()), 8192, 100);
+        r.fill_buf().unwrap();
+        r.consume(8100); // 92 bytes left: below the low mark, the next fill compacts them to offset 4004
+        r.fill_buf().unwrap();
+        let target = 4096u64 + 10; // inside [abs_pos, abs_pos + offset): buffer bytes there are leftovers of the old window
+        let res = r.seek(SeekFrom::Start(target));
+        match res {
+            Err(e) => {
+                println!("seek to {} refused: {} (fine: the data is no longer buffered)", target, e);
+                std::process::exit(0);
+            }
+            Ok(_) => {
+                let mut got = [0u8; 16];
+                r.read_exact(&mut got).unwrap();
+                let want = &src[target as usize..target as usize + 16];
+                println!("seek to {} accepted; read {:?}\n                     source has {:?}", target, got, want);
+                std::process::exit(if got == want { 0 } else { 1 });
+            }
+        }
+    }
     if which == "x3" {
         use std::io::{Cursor, Read};
         use adlt::utils::seekablechain::SeekableChain;
